@@ -126,3 +126,17 @@ func nodeID(n *priorityNode) interface{} {
 
 // VerifNewRoundRobinWriteScheduler exposes the default scheduler constructor.
 func VerifNewRoundRobinWriteScheduler() WriteScheduler { return newRoundRobinWriteScheduler() }
+
+// verifYieldCapture is inserted before every "<x>.Mu.Lock()" statement of server.go.
+func verifYieldCapture() {
+	if f := VerifYield; f != nil {
+		f("capture", "")
+	}
+}
+
+// verifYieldBodyRead is inserted at the start of noteBodyReadFromHandler.
+func verifYieldBodyRead(sc *serverConn) {
+	if f := VerifYield; f != nil {
+		f("bodyread", sc.conn.RemoteAddr().String())
+	}
+}
